@@ -152,6 +152,7 @@ type Frame struct {
 	hoEvents map[string]*Event // closure-invocation events by parameter name (callee-contract context)
 	loopRuns  map[*loop]*loopRun
 	cellTypes map[string]types.Type
+	addrCache map[string]Term // materialised address per local cell (+ static field path)
 	allocIDs  map[*ssa.Alloc]int
 	cellClo   map[string]*Closure
 	children  []*Frame
@@ -433,7 +434,31 @@ func (fr *Frame) materialise(l *LVal, st *State) Term {
 	if (l.kind == rkHeap || l.kind == rkElems) && len(l.path) == 0 {
 		return l.ref
 	}
-	p := c.newRef("addr") // a temporary object standing for the addressed location
+	// a temporary object standing for the addressed location; one address per local cell and static
+	// field path, so that the same variable passed to two calls is the same pointer
+	var p Term
+	ck := ""
+	if l.kind == rkLocal {
+		ck = l.key
+		for _, s := range l.path {
+			if s.idx != nil {
+				ck = ""
+				break
+			}
+			ck += fmt.Sprintf("/%d", s.field)
+		}
+	}
+	if q, ok := fr.addrCache[ck]; ok && ck != "" {
+		p = q
+	} else {
+		p = c.newRef("addr")
+		if ck != "" {
+			if fr.addrCache == nil {
+				fr.addrCache = map[string]Term{}
+			}
+			fr.addrCache[ck] = p
+		}
+	}
 	// copy-in
 	cur := fr.read(l, st)
 	if arr, ok := under(l.typ).(*types.Array); ok {
